@@ -731,8 +731,8 @@ def run_c08(ctx):
     cases += witness_cases(ctx, "C08", wellformed=True)
     wf_cases = [c for c in cases if c.meta.get("wellformed")]
     other = [c for c in cases if not c.meta.get("wellformed")]
-    ctx.run_stream(wf_cases, units=["canon", "lineend", "invariants", "recon", "eofnl", "settings", "wrapapply"], oracle=oracle)
-    ctx.run_stream(other, units=["canon", "lineend", "recon", "eofnl", "settings", "wrapapply", "spacing"], oracle=oracle)
+    ctx.run_stream(wf_cases, units=["canon", "lineend", "invariants", "recon", "eofnl", "settings", "wrapapply", "search"], oracle=oracle)
+    ctx.run_stream(other, units=["canon", "lineend", "recon", "eofnl", "settings", "wrapapply", "spacing", "search"], oracle=oracle)
     # class attribute of finding F41, decided on the trace, for failures of inputs with disabled regions
     for f in ctx.failures:
         if "voided_parent" not in f and f.get("input_hex") and f.get("cfg"):
@@ -745,6 +745,7 @@ def run_c08(ctx):
             m = re.search(r"\btoken (\d+)\b", f.get("detail") or "")
             if m and f.get("kind") == "plan_not_canonical":
                 f["no_solution_line"] = token_in_line_without_solution(ctx, t, tuple(f["cfg"]), int(m.group(1)))
+    ctx.hypotheses["the wrapper's decisions are those of the search model (Model/WrapSearch.v: one decision per token, invariants respected: search_plan_respects)"] = "unit search on every trace: decisions, measured lengths, search outcomes and final token vector against olf_model"
     ctx.hypotheses["H-W1 canon_fmt (final per-token data: line start => no spaces; continuation => <= 1 space, no indentation; <= 1 blank line)"] = "unit canon on every trace"
     ctx.hypotheses["no content ends in a blank before a line break"] = "unit lineend on every trace (classes F3/F7 matched against known findings)"
 
@@ -906,7 +907,8 @@ def run_c10(ctx):
     # the wrapper measures a line with the strings the reconstructor emits: its logged line length of every decided
     # token against the model of get_token_line_length and against the rendered column, under narrow widths too
     sample += [ctx.case("trace-narrow", t, gen.random_cfg(rng, wrap=rng.choice([30, 50, 80]))) for t, _, _ in pool[:: max(1, len(pool) // ctx.n(300, 3000))]]
-    ctx.run_stream(sample, units=["recon", "settings", "measure"])
+    ctx.run_stream(sample, units=["recon", "settings", "measure", "search"])
+    ctx.hypotheses["the search reads the reconstruction settings only through the two indentation string lengths (signature of wrap_phase)"] = "unit search on every traced case: the model, which has no other access, reproduces every decision"
     ctx.hypotheses["the search's measured line length (LineWhitespace::len, get_token_line_length) is the model's"] = "unit measure on every traced case: hook log of last_line_length per decision"
     ctx.hypotheses["H-W3 (with the width unconstrained the plan does not depend on indentation widths)"] = "tabs/spaces pairs on the real formatter with wrap_column = 10^9"
 
@@ -1579,8 +1581,9 @@ def run_c06(ctx):
             pairs.append((ctx.case("witness-" + fid, text, gen.DEFAULT_CFG), ctx.case("witness-" + fid + "-relayout", w["relayout"], gen.DEFAULT_CFG), {"gap_class": "literal"}))
     run_pairs(ctx, pairs, compare)
     sample = [ctx.case("trace", t, gen.random_cfg(rng)) for t, _, _ in wellformed_texts(ctx, 20)[:: ctx.n(4, 1)]]
-    # (the parser's layout independence is a theorem about the grammar model: the model is tied here too)
-    ctx.run_stream(sample, units=["spacing", "fmtdata", "grammar"])
+    # (the parser's and the search's layout independence are facts about the grammar model and the search model: both are tied here too)
+    ctx.run_stream(sample, units=["spacing", "fmtdata", "grammar", "search"])
+    ctx.hypotheses["the wrapper's search reads token types, spaces_before, content lengths, last-line lengths of multi-line tokens and the logical lines only (signature of wrap_phase; no original line breaks)"] = "unit search on the traced sample: the model reproduces every decision from these inputs alone"
     ctx.hypotheses["H-P2 / H-W2: parser and wrapper do not consult the original layout (except the documented reads)"] = "relayout metamorphic pairs on the real formatter; inventory of leading-whitespace reads proved equal to the modelled set"
 
 
@@ -1670,7 +1673,8 @@ def run_c03(ctx):
     sample = [ctx.case("trace", c.text, c.cfg) for c in second[:: max(1, len(second) // 300)]]
     # first-pass inputs too (un-normalised comments, keyword case): the rewriters against their models
     sample += [ctx.case("trace1", c.text, c.cfg) for c in first[:: max(1, len(first) // ctx.n(600, 4000))]]
-    ctx.run_stream(sample, units=["spacing", "lower", "comment", "eofnl", "mlstring", "fmtdata"])
+    ctx.run_stream(sample, units=["spacing", "lower", "comment", "eofnl", "mlstring", "fmtdata", "search"])
+    ctx.hypotheses["the plan is a function of the layout-free view except spaces_before of continuing tokens (search_first_token_spaces_irrelevant) and the child_line_cache kept across the reflow (F6, modelled)"] = "unit search on first- and second-pass inputs"
     ctx.hypotheses["H-W2/H-W4/H-W5: the wrapper's plan is a function of the layout-free view; reflow = fresh call"] = "fmt(fmt(x)) = fmt(x) on the real formatter"
 
 
@@ -1928,7 +1932,8 @@ def run_c11(ctx):
     # the limit is applied to a MEASURED length: the search's logged line length of every decided token against the
     # model of get_token_line_length and against the rendered column (theorem C11_measured_fit_is_rendered_fit)
     msample = [ctx.case("trace-" + c.meta["stream"], c.text, c.cfg) for c in cases[:: max(1, len(cases) // ctx.n(500, 5000))]]
-    ctx.run_stream(msample, units=["measure", "recon", "wrapapply"])
+    ctx.run_stream(msample, units=["measure", "recon", "wrapapply", "search"])
+    ctx.hypotheses["the penalties, the over-length test and the iteration limit of the search are the model's (Model/WrapSearch.v)"] = "unit search on the traced sample: WS lines (penalty, iterations, length) compared per find_optimal_solution call"
     ctx.hypotheses["the search's measured line length (LineWhitespace::len, get_token_line_length) is the model's"] = "unit measure on a traced sample of the width-pair cases"
 
     def maxlen(out):
